@@ -5,6 +5,7 @@ time and checks the property clauses after each of them. It never draws random
 numbers: the caller (generator, sweep, minimiser or replay) supplies every
 step, so the same step list always gives the same execution.
 """
+import logging
 import copy
 import hashlib
 import itertools
@@ -241,6 +242,19 @@ def compute_reference(req):
                    {"dir": refdir, "box": box, "cif_text": box.pop("__cif_text__", False)}, O.READERS.get(op))
 
 
+class _FormattingSink(logging.Handler):
+    """Log handler that formats every record (so `%s` arguments are really
+    converted, as with any real handler) and keeps only a count."""
+
+    def __init__(self):
+        super().__init__(logging.DEBUG)
+        self.records = 0
+
+    def emit(self, record):
+        record.getMessage()
+        self.records += 1
+
+
 class Sim:
     def __init__(self, source_spec, args, deep_fork_check=True, ref_mode="inproc", ids="real"):
         if ids == "recycled":
@@ -261,6 +275,17 @@ class Sim:
             self.ref_server = RefServer(compute_reference)
         self.source_spec = source_spec
         self.A = args
+        self.log_sink = None
+        if args.get("log_debug"):
+            # the caller's process has debug logging switched on for the
+            # library (part of the environment, like the working directory);
+            # records are formatted, as a real handler would
+            self.log_sink = _FormattingSink()
+            lg = logging.getLogger("chmpy")
+            lg.addHandler(self.log_sink)
+            lg.setLevel(logging.DEBUG)
+            self._log_disabled = logging.root.manager.disable  # the harness silences logging globally
+            logging.disable(logging.NOTSET)
         try:
             self.world = [sources.build(source_spec, fs_dir=FS.dir("src"))]
         except BaseException:
@@ -282,6 +307,8 @@ class Sim:
         self.last_raise = [None]
         self.events = []
         self.stats = Counter()
+        if self.log_sink is not None:
+            self.stats["runs_with_library_debug_logging_on"] += 1
         self.transitions = set()
         self.nontrivial_checks = 0
         self.armed = [False]  # handle has seen a successful state change with memo/cif_data present
@@ -324,6 +351,12 @@ class Sim:
         if self.ref_server is not None:
             self.ref_server.close()
             self.ref_server = None
+        if getattr(self, "log_sink", None) is not None:
+            lg = logging.getLogger("chmpy")
+            lg.removeHandler(self.log_sink)
+            lg.setLevel(logging.NOTSET)
+            logging.disable(self._log_disabled)
+            self.log_sink = None
         FS.cleanup()
 
     def reference(self, pre, op, fn):
@@ -626,9 +659,12 @@ class Sim:
             fired = INJECTOR.disarm() if inject else False
         if inject:
             self.stats["inject:" + ("fired" if fired else "not_reached")] += 1
-        if self.mut_log[hi] is not None:
-            self.mut_log[hi].append(op)
         changed = state_digest(h) != S
+        # the twin of a CIF-born crystal (see _cif_twin) is taken through the
+        # calls that changed the state; a single call that left the state as it
+        # was (asking for the setting the crystal is in already) is not one
+        if self.mut_log[hi] is not None and (changed or op in ("flip2", "flip3")):
+            self.mut_log[hi].append(op)
         fb["changed"] = changed
         fb["raised"] = a[1] if a[0] == "raised" else None
         tag = "ok" if a[0] == "ok" else a[1]
